@@ -117,6 +117,18 @@ pub fn transparency(input: &[u8], mode: &Mode, to: Fmt, class: &str, acc: &mut A
 /// Inputs aimed at the detection trials (part c).
 pub fn emphasised(seed: u64, idx: usize) -> (Vec<u8>, &'static str) {
     let mut rng = Rng::derive(seed, 0xc09c, idx as u64);
+    if idx % 50 == 49 {
+        // bytes that the MessagePack trial reads as collections nested around and far beyond its depth
+        // limit: real MessagePack nesting, and valid YAML / TOML text whose characters U+0700..U+07FF encode
+        // as a collection marker plus a length byte each
+        let d = *rng.pick(&[1000usize, 1022, 1023, 1024, 1025, 1500, 3000]);
+        return match rng.below(4) {
+            0 => (crate::c18::nested(Fmt::Msgpack, crate::c18::Shape::Arrays, d), "msgpack_nesting_around_and_beyond_the_limit"),
+            1 => (crate::c18::nested(Fmt::Msgpack, crate::c18::Shape::Random(rng.next()), d), "msgpack_nesting_around_and_beyond_the_limit"),
+            2 => (format!("\u{71c}: {}\n", "\u{71c}".repeat(d)).into_bytes(), "text_reading_as_deep_msgpack"),
+            _ => (format!("\"\u{71d}\" = \"{}\"\n", "\u{71d}".repeat(d)).into_bytes(), "text_reading_as_deep_msgpack"),
+        };
+    }
     match idx % 7 {
         6 => {
             // xt's own TOML output for documents with detection-hostile first keys
